@@ -8,7 +8,8 @@ open Reduino.Lang.EC
 
 def ecBin? : String → Option Reduino.Lang.EC.BinOp
   | "add" => some .add | "sub" => some .sub | "mul" => some .mul | "floordiv" => some .floordiv | "mod" => some .mod
-  | "pow" => some .pow | "shl" => some .shl | "shr" => some .shr | _ => none
+  | "pow" => some .pow | "shl" => some .shl | "shr" => some .shr
+  | "band" => some .band | "bor" => some .bor | "bxor" => some .bxor | "div" => some .div | _ => none
 def ecUn? : String → Option UnOp | "pos" => some .pos | "neg" => some .neg | "not" => some .not | _ => none
 def ecCmp? : String → Option Reduino.Lang.EC.CmpOp
   | "eq" => some .eq | "ne" => some .ne | "lt" => some .lt | "le" => some .le | "gt" => some .gt | "ge" => some .ge | _ => none
@@ -64,7 +65,8 @@ def handleEC (fields : List String) : Option String :=
       some (match eval env e with
         | .ok v => "ok " ++ showECVal v
         | .error .value => "err value"
-        | .error .pyError => "err py")
+        | .error .pyError => "err py"
+        | .error .floatResult => "ok float")     -- accepted; the value is a float, outside the model's domain
   | _ => none
 
 end Reduino.Driver
